@@ -6,6 +6,7 @@ import (
 	"fmt"
 	"github.com/markusressel/fan2go/internal/ui"
 	"os/exec"
+	"path/filepath"
 	"strings"
 	"time"
 )
@@ -15,6 +16,13 @@ import (
 const cmdWaitDelay = 200 * time.Millisecond
 
 func SafeCmdExecution(executable string, args []string, timeout time.Duration) (string, error) {
+	if filepath.Base(executable) == executable {
+		// a bare command name: os/exec looks it up in $PATH, so that is the file to check (and to run)
+		if resolved, err := exec.LookPath(executable); err == nil {
+			executable = resolved
+		}
+	}
+
 	if _, err := CheckFilePermissionsForExecution(executable); err != nil {
 		return "", fmt.Errorf("cannot execute %s: %s", executable, err)
 	}
